@@ -5,6 +5,7 @@ package liquid
 // that faces literal text removes exactly the whitespace next to it.
 
 import (
+	"github.com/osteele/liquid/render"
 	nd "github.com/osteele/liquid/zz_verifnd"
 )
 
@@ -84,4 +85,35 @@ func VerifC13Invisible() {
 	out, err := NewEngine().ParseAndRenderString(t, Bindings{})
 	nd.Assert(err == nil && out == want, "hyphens-remove-whitespace-only")
 	nd.Reach("C13.invisible")
+}
+
+// VerifC13TagArgs: a hyphen belongs to the delimiter, not to the tag: a registered tag sees the same
+// arguments with and without the hyphens (a lone "-" is an argument only when the tag is given one),
+// and the hyphens remove the adjacent whitespace and nothing else.
+func VerifC13TagArgs() {
+	e := NewEngine()
+	e.RegisterTag("echo", func(c render.Context) (string, error) { return "[" + c.TagArgs() + "]", nil })
+	w1, w2 := nd.StringFrom(1, " \n\t"), nd.StringFrom(1, " \n\t")
+	l, r := nd.Bool(), nd.Bool()
+	arg := []string{"", "x", "-", "a -b", "-1"}[nd.Choice(5)]
+	h := func(on bool) string {
+		if on {
+			return "-"
+		}
+		return ""
+	}
+	keep := func(s string, trimmed bool) string {
+		if trimmed {
+			return ""
+		}
+		return s
+	}
+	sp := []string{" ", ""}[nd.Choice(2)] // with and without a space before the closing delimiter
+	if arg == "-" || arg == "-1" || arg == "a -b" {
+		sp = " "
+	}
+	src := "a" + w1 + "{%" + h(l) + " echo " + arg + sp + h(r) + "%}" + w2 + "b"
+	out, err := e.ParseAndRenderString(src, Bindings{})
+	nd.Assert(err == nil && out == "a"+keep(w1, l)+"["+arg+"]"+keep(w2, r)+"b", "hyphens-are-not-tag-arguments")
+	nd.Reach("C13.tagargs")
 }
